@@ -111,6 +111,53 @@ func tlReplay(input, ops string, scan []tlRecord) (sig, detail, key string) {
 	return "", "", fmt.Sprintf("%d/%d/%v", readp, writep, ptrs)
 }
 
+// c13LongScan: on an input of several hundred tokens, two nested snapshots opened at every pair of positions
+// (p1 < p2) and rolled back from every later position p3, then the scan continues: whatever buffering the
+// transactional lexer does, the tokens after the rollbacks must be the ones a fresh scan gives at that position.
+func c13LongScan(w *core.W, tokens int) {
+	parts := make([]string, tokens)
+	for i := range parts {
+		parts[i] = string(rune('a'+i%26)) + string(rune('a'+(i/26)%26))
+	}
+	input := strings.Join(parts, " ")
+	scan := freshScan(input, tokens+4)
+	w.Family("tlexer-long-scan")
+	step := 7
+	if w.Thorough() {
+		step = 3
+	}
+	item := 0
+	for p1 := 0; p1 < tokens; p1 += step {
+		for _, gap := range []int{1, 2, 5, 90, 255, 256, 257} {
+			p2 := p1 + gap
+			if p2 >= tokens {
+				continue
+			}
+			item++
+			if !w.Mine(fmt.Sprintf("p1=%d p2=%d", p1, p2)) {
+				continue
+			}
+			for p3 := p2; p3 <= tokens; p3 += 1 + (p3-p2)/8 {
+				for _, mode := range []string{"RR", "CR", "RC"} {
+					ops := strings.Repeat("N", p1) + "S" + strings.Repeat("N", p2-p1) + "S" + strings.Repeat("N", p3-p2) + mode + "NNN"
+					w.Evals(1)
+					w.Count("transitions", int64(len(ops)))
+					w.Count("traces_validated_against_impl", 1)
+					if sig, detail, _ := tlReplay(input, ops, scan); sig != "" {
+						b, _ := json.Marshal(map[string]string{"kind": "tlexer", "input": input, "ops": ops})
+						w.Fail(string(b), sig, clipStr(detail, 600))
+						break
+					}
+				}
+			}
+			w.NonTrivial()
+			if w.Expired("time budget reached in the long TLexer scan") {
+				return
+			}
+		}
+	}
+}
+
 func c13TLexer(w *core.W, depth int) {
 	inputs := []string{"", "1", "a b", "1 + 2", "f(x)\n", "1 £ 2", "\"s\" [1\n2] z", "a ; c\nb"}
 	for ii, input := range inputs {
@@ -618,7 +665,7 @@ func init() {
 	core.Register(&core.Check{
 		ID:    "C13",
 		Level: "model_checking",
-		Rule: "(a) breadth-first search over all sequences of Next/Snapshot/Rollback/Commit (Rollback/Commit only with an open snapshot) on the real TLexer for 8 inputs, deduplicated on (readp, writep, snapshot stack), every step compared with a fresh plain scan; " +
+		Rule: "(a) breadth-first search over all sequences of Next/Snapshot/Rollback/Commit (Rollback/Commit only with an open snapshot) on the real TLexer for 8 inputs, deduplicated on (readp, writep, snapshot stack), every step compared with a fresh plain scan; plus, on a 700-token input, two nested snapshots opened at every 7th (3rd) position p1 and p2 = p1 + {1, 2, 5, 90, 255, 256, 257} and rolled back / committed from a dense set of later positions; " +
 			"(b) every parser term built from Accept a, Accept b, Ok and And/Seq/OneOf/Choose/Any/SeparatedBy/SurroundedBy/Assert/Not/Drop/Fmap to depth 2 (quick: third argument of ternary combinators primitive) x all 121 token streams over {a,b,c} of length <= 4 x {bare, wrapped in OneOf(T, Ok)} x {real TLexer, list lexer}, compared with an ordered-choice recogniser on accept/reject, result list and input position left; " +
 			"states = distinct TLexer states; distinct_nontrivial = TLexer states + (term, stream, lexer) triples on which the term consumed input or failed after consuming",
 		Assumptions: []string{
@@ -638,6 +685,7 @@ func c13Run(w *core.W) {
 		depth = 11
 	}
 	c13TLexer(w, depth)
+	c13LongScan(w, 700)
 
 	strs := streams(4)
 	d0 := prims()
@@ -650,9 +698,6 @@ func c13Run(w *core.W) {
 	idx := 0
 	judge := func(t *term) bool {
 		idx++
-		if idx%w.N != w.Shard {
-			return true
-		}
 		if !w.Mine(t.String()) {
 			return true
 		}
